@@ -332,6 +332,43 @@ REWRITE_RULES = {
 }
 
 
+def debug_asserts(unit, body, log):
+    """Rule DA (automatic, logged): `debug_assert!(c [, msg..])`, `debug_assert_eq!(a, b [, ..])`, `debug_assert_ne!(a, b [, ..])` statements
+    become calls of the wrapper `debug_assert_holds(cond)` whose precondition is the condition - the macro panics otherwise (debug
+    builds), so "no panic" is exactly that the condition holds. Verus has no specification for the std assertion macros."""
+    m_body = mask(body)
+    out, pos = [], 0
+    for m in re.finditer(r'\bdebug_assert(_eq|_ne)?!\s*\(', m_body):
+        if m.start() < pos:
+            continue
+        op = m.end() - 1
+        cl = match_close(m_body, op)
+        args_m, args = m_body[op + 1:cl], body[op + 1:cl]
+        parts, depth, last = [], 0, 0
+        for j, ch in enumerate(args_m):
+            if ch in '([{':
+                depth += 1
+            elif ch in ')]}':
+                depth -= 1
+            elif ch == ',' and depth == 0:
+                parts.append(args[last:j]); last = j + 1
+        parts.append(args[last:])
+        parts = [x.strip() for x in parts if x.strip()]
+        kind = m.group(1)
+        if kind is None and len(parts) >= 1:
+            cond = parts[0]
+        elif kind in ('_eq', '_ne') and len(parts) >= 2:
+            cond = '(%s) %s (%s)' % (parts[0], '==' if kind == '_eq' else '!=', parts[1])
+        else:
+            continue
+        out.append(body[pos:m.start()])
+        out.append('debug_assert_holds(%s)' % cond)
+        log.append({'unit': unit, 'rule': 'DA', 'before': norm_ws(body[m.start():cl + 1])[:100], 'after': 'debug_assert_holds(%s)' % norm_ws(cond)[:80]})
+        pos = cl + 1
+    out.append(body[pos:])
+    return ''.join(out)
+
+
 def transform_body(unit, body, directives, log):
     """body: text strictly between the function's braces. directives: parsed list."""
     mbody = mask(body)
@@ -685,6 +722,7 @@ def process(template_path, info, out_lines, depth=0):
             body = text[bo + 1:bc]
             log = []
             new_body = transform_body(cid, body, directives, log)
+            new_body = debug_asserts(cid, new_body, log)
             line_no = text.count('\n', 0, fs) + 1
             start_line = len(out_lines) + 1
             out_lines.append('// UNIT(%s): body extracted from %s:%d' % (cid, rel, line_no))
